@@ -67,7 +67,13 @@ def gen_cases(ctx, n, maxdim):
                     vecs.append(v)
             c["lowrank"] = {"vals": [r.choice([0.25, 4.0, 9.0, 0.0625, 2.25]) for _ in range(rank)], "vecs": vecs,
                             "mu": [r.randint(-8, 8) / 8 for _ in range(dim)]}
-        if r.random() < 0.3:
+        if "lowrank" not in c and r.random() < 0.35 and dim >= 1:
+            # the adaptation replaces the transformation between two trajectories: the second draw
+            # starts from a state that was computed under the old one
+            c["ndraws"] = 2
+            c["retransform"] = {"stds": [r.choice([0.5, 1.0, 2.0, 1.5, 0.25, 3.0]) for _ in range(dim)],
+                                "mean": [r.randint(-8, 8) / 8 for _ in range(dim)]}
+        elif r.random() < 0.3:
             # direct integrator calls with step-size factors (MCLMC's retry halves the step): a path
             # forward and the same path backward
             fs = [r.choice([1.0, 0.5, 0.25, 0.75, 0.125]) for _ in range(r.randint(1, 3))]
@@ -81,10 +87,16 @@ def gen_cases(ctx, n, maxdim):
     return cases
 
 
-def lowrank_expr(c):
+def transform_of(c, k):
+    """(stds, mean) in force during draw k"""
+    if k >= 1 and c.get("retransform"):
+        return c["retransform"]["stds"], c["retransform"]["mean"]
+    return c["stds"], c["mean"]
+
+
+def lowrank_expr(c, k=0):
     dim = c["dim"]
-    sig = c["stds"]
-    mean = c["mean"]
+    sig, mean = transform_of(c, k)
     lr = c.get("lowrank")
     if lr:
         r_ = [math.sqrt(v) for v in lr["vals"]]
@@ -97,13 +109,13 @@ def lowrank_expr(c):
 def step_exprs(c, o, max_steps):
     exprs, meta = [], []
     pot = "(mk_pot %s %s %s)" % (qlist(c["prec"]), qlist(c["mu"]), qlit(c.get("quartic", 0.0)))
-    lr = lowrank_expr(c)
     kind = 1 if c["kind"] == "exact_normal" else 0
     if c["kind"] == "microcanonical":
         return exprs, meta
-    for d in o["draws"]:
+    for kdraw, d in enumerate(o["draws"]):
         if not d.get("init"):
             continue
+        lr = lowrank_expr(c, kdraw)
         pts = {0: d["init"]}
         n = 0
         for lf in d["leapfrogs"]:
@@ -203,10 +215,15 @@ def oracle_micro(c, d):
     return bad
 
 
-def oracle_point(c, p):
+def oracle_point(c, p, kdraw=0, init=None):
     """implementation-side consistency of one logged point: logdet, energy, index"""
     bad = []
-    logdet = -sum(math.log(s) for s in c["stds"])
+    logdet = -sum(math.log(s) for s in transform_of(c, kdraw)[0])
+    if init is not None and p.get("initial_energy") is not None:
+        # energy errors of a trajectory are measured from the energy of its start
+        if abs(b2f(p["initial_energy"]) - b2f(init["energy"])) > 1e-9 * (1 + abs(b2f(init["energy"]))):
+            bad.append("the reference energy %r of the trajectory is not the energy %r of its start (draw %d)" % (
+                b2f(p["initial_energy"]), b2f(init["energy"]), kdraw))
     if c.get("lowrank"):
         logdet -= 0.5 * sum(math.log(v) for v in c["lowrank"]["vals"])
     if abs(b2f(p["logdet"]) - logdet) > 1e-9 * (1 + abs(logdet)):
@@ -246,7 +263,7 @@ def run(ctx):
         e, m = step_exprs(c, o, 6 if c.get("single_steps") else (2 if quick else 4))
         exprs += e
         meta += m
-        for d in o["draws"]:
+        for kdraw, d in enumerate(o["draws"]):
             rb = oracle_reversible(c, d)
             if c["kind"] == "microcanonical":
                 rb = rb + oracle_micro(c, d)
@@ -256,7 +273,7 @@ def run(ctx):
                           {"case": {k: v for k, v in c.items() if k != "words"}, "failures": rb}, found_input=True)
             for p in [d.get("init")] + [lf for lf in d["leapfrogs"] if not lf["diverged"]]:
                 if p:
-                    bad = oracle_point(c, p)
+                    bad = oracle_point(c, p, kdraw, d.get("init"))
                     if bad and nb < 3:
                         nb += 1
                         violation(ctx, "implementation violates C02: %s" % bad[0],
